@@ -54,7 +54,7 @@ def step (G : Grammar) (L : FLattice) (start : Nat) (S : List CItem) : List CIte
     | none =>
         (S.filter (fun p => p.col = it.origin ∧ p.rule.rhs[p.dot]? = some (Sym.nt it.rule.lhs))).map
             (fun p => ⟨it.col, p.rule, p.dot+1, p.origin⟩)
-        ++ (if it.rule.lhs = start then
+        ++ (if it.rule.lhs = start ∧ it.origin = 0 then
               (L.igns.filter (fun e => e.1 = it.col)).map (fun e => ⟨e.2, it.rule, it.dot, it.origin⟩)
             else [])
 
@@ -117,7 +117,7 @@ theorem chart_sound_exec (G : Grammar) (L : FLattice) (start : Nat) :
         · rename_i hs
           simp only [List.mem_map, List.mem_filter, decide_eq_true_eq] at hx
           obtain ⟨⟨i, j⟩, ⟨he, rfl⟩, rfl⟩ := hx
-          have := Chart.carry it.col j it.rule it.origin hP' hs he
+          have := Chart.carry it.col j it.rule it.origin hP' hs.1 hs.2 he
           show Chart G L.toLattice start j ⟨it.rule, it.dot, it.origin⟩
           rw [hdot]; exact this
         · cases hx
@@ -137,7 +137,7 @@ theorem Chart.bounds {G : Grammar} {L : FLattice} (hL : L.WF) {start i it}
   | ignore i j r d k a _ _ he ih =>
     have := hL.ign_fwd i j he; simp only at ih ⊢; omega
   | complete i j r' r d k _ _ _ ih1 ih2 => simp only at ih1 ih2 ⊢; omega
-  | carry i j r k _ _ he ih =>
+  | carry i j r k _ _ _ he ih =>
     have := hL.ign_fwd i j he; simp only at ih ⊢; omega
 
 /-- every fact of the deduction system is found by the executable -/
@@ -178,13 +178,16 @@ theorem chart_complete_exec (G : Grammar) (L : FLattice) (hL : L.WF) (start : Na
     have hnone : r'.rhs[r'.rhs.length]? = none := by simp
     simp only [hnone, List.mem_append, List.mem_map, List.mem_filter, decide_eq_true_eq]
     exact Or.inl ⟨_, ⟨ih2, rfl, hd⟩, rfl⟩
-  | carry i j r k hc hs he ih =>
-    apply saturate_closed _ _ _ _ _ (huniv (Chart.carry i j r k hc hs he))
+  | carry i j r k hc hs hk he ih =>
+    apply saturate_closed _ _ _ _ _ (huniv (Chart.carry i j r k hc hs hk he))
     simp only [step, List.mem_flatMap]
     refine ⟨_, ih, ?_⟩
     have hnone : r.rhs[r.rhs.length]? = none := by simp
-    simp only [hnone, List.mem_append, List.mem_map, List.mem_filter, decide_eq_true_eq, hs, if_true]
-    exact Or.inr ⟨(i, j), ⟨he, rfl⟩, rfl⟩
+    simp only [hnone, List.mem_append, List.mem_map, List.mem_filter, decide_eq_true_eq]
+    refine Or.inr ?_
+    rw [if_pos ⟨hs, hk⟩]
+    simp only [List.mem_map, List.mem_filter, decide_eq_true_eq]
+    exact ⟨(i, j), ⟨he, rfl⟩, rfl⟩
 
 /-- the executable chart is exactly the deduction system -/
 theorem mem_chart_iff (G : Grammar) (L : FLattice) (hL : L.WF) (start : Nat) (c : CItem) :
@@ -216,12 +219,12 @@ theorem Steps.toPath {L : Lattice} {i k ts} (h : Steps L i k ts) : Path L i k ts
     | refl => exact hp
     | step x y z hxy _ ih' => exact Path.ign x y k _ hxy (ih' hp)
 
-theorem Chart.carryStar {G : Grammar} {L : Lattice} {start : Nat} {r : Rule} {o m k : Nat}
-    (hi : IgnStar L m k) (hs : r.lhs = start) (h : Chart G L start m ⟨r, r.rhs.length, o⟩) :
-    Chart G L start k ⟨r, r.rhs.length, o⟩ := by
+theorem Chart.carryStar {G : Grammar} {L : Lattice} {start : Nat} {r : Rule} {m k : Nat}
+    (hi : IgnStar L m k) (hs : r.lhs = start) (h : Chart G L start m ⟨r, r.rhs.length, 0⟩) :
+    Chart G L start k ⟨r, r.rhs.length, 0⟩ := by
   induction hi with
   | refl => exact h
-  | step x y z hxy _ ih => exact ih (Chart.carry x y r o h hs hxy)
+  | step x y z hxy _ ih => exact ih (Chart.carry x y r 0 h hs rfl hxy)
 
 /-- End-to-end: the executable recogniser accepts exactly the lattice paths that spell a sentence. -/
 theorem accepts_iff (G : Grammar) (L : FLattice) (hL : L.WF) (start : Nat) :
